@@ -187,8 +187,14 @@ func (e *EPConf) BuildTLCP(env *Env, name string) *tlcp.Config {
 		DynamicRecordSizingDisabled: e.DynOff,
 		ClientECDHEParamsAsVector:   e.VecParams,
 	}
-	for _, n := range e.Certs {
-		c.Certificates = append(c.Certificates, tlcp.Certificate{Certificate: [][]byte{fix.DER(n)}, PrivateKey: e.key(env, n)})
+	for i, n := range e.Certs {
+		chain := [][]byte{fix.DER(n)}
+		if i == 0 {
+			for k := 0; k < e.ChainPad; k++ {
+				chain = append(chain, fix.DER("ca1"))
+			}
+		}
+		c.Certificates = append(c.Certificates, tlcp.Certificate{Certificate: chain, PrivateKey: e.key(env, n)})
 	}
 	if e.Cache != "" {
 		c.SessionCache = env.TCaches[e.Cache]
